@@ -218,7 +218,7 @@ func namedType(t types.Type) string {
 		t = p.Elem()
 	}
 	if n, ok := t.(*types.Named); ok && n.Obj().Pkg() != nil {
-		return short(n.Obj().Pkg().Path() + "." + n.Obj().Name())
+		return short(n.Obj().Pkg().Path() + "." + refTypeNameOf(n))
 	}
 	return t.String()
 }
@@ -322,7 +322,8 @@ func fieldAddrName(fa *ssa.FieldAddr) (base ssa.Value, field string, ok bool) {
 	if !isS {
 		return nil, "", false
 	}
-	return fa.X, st.Field(fa.Field).Name(), true
+	_ = st
+	return fa.X, refFieldName(fa.X.Type(), fa.Field), true
 }
 
 // rejectBlock reports whether block b unconditionally (through jumps only)
